@@ -26,6 +26,12 @@ func main() {
 		r = net.C07(c)
 	case "C09":
 		r = net.C09(c)
+	case "C11":
+		r = net.C11(c)
+	case "C18":
+		r = net.C18(c)
+	case "C19":
+		r = net.C19(c)
 	case "C20":
 		r = net.C20(c)
 	default:
